@@ -409,7 +409,9 @@ struct InflateSession {
                         rr.fail("C06.accounting", "isal_inflate_stateless: next_out/avail_out inconsistent");
                         return false;
                 }
-                os1.ran = osz == 0; // with a deliberately small sink only the safety clauses are judged (guard page, documented status)
+                if (!oneshot_prefix_ok(ret, so->data, produced, cap))
+                        return false;
+                os1.ran = osz == 0; // with a deliberately small sink only the safety clauses and the delivered prefix are judged
                 os1.ret = ret;
                 os1.block_state = s->block_state;
                 os1.total_out = s->total_out;
@@ -465,6 +467,8 @@ struct InflateSession {
                                 rr.fail("C06.ret_undocumented", strf("isal_inflate_stateless returned %d", ret));
                                 return false;
                         }
+                        if (!oneshot_prefix_ok(ret, so->data, ret >= 0 ? cap - s->avail_out : 0, cap))
+                                return false;
                         if (pristine && ret == 0 && s->block_state == ISAL_BLOCK_FINISH && (cap < plain.size() || memcmp(so->data, plain.data(), plain.size()))) {
                                 rr.fail("C06.false_success", strf("one-shot decoder reports completion with avail_out %zu although the stream decodes to %zu bytes", cap, plain.size()));
                                 return false;
@@ -780,6 +784,42 @@ struct InflateSession {
                 }
         }
 
+        // what the reference makes of the bytes the decoder is handed (computed once, on demand)
+        RefInflate ref_cache;
+        int ref_cache_status = 0;
+        bool ref_cached = false;
+        const RefInflate &refdec()
+        {
+                if (!ref_cached) {
+                        ref_cache.init(refwrap, dict.empty() ? nullptr : dict.data(), dict.size());
+                        ref_cache_status = ref_cache.feed(bytes.data(), bytes.size());
+                        if (ref_cache_status == REF_NEED_DICT)
+                                ref_cache_status = ref_cache.feed(bytes.data(), bytes.size());
+                        ref_cached = true;
+                }
+                return ref_cache;
+        }
+        // A one-shot call that returns a non-negative status (0, or "output full") vouches for the bytes it delivered: they must be a
+        // prefix of what the reference decodes, and never more than the reference can decode before it meets an error.
+        bool oneshot_prefix_ok(int ret, const uint8_t *out, size_t produced, size_t cap)
+        {
+                if (ret < 0 || ret == ISAL_NEED_DICT || !dict.empty() || need_dict_zlib || (ihb() && ihb() < 15))
+                        return true;
+                const RefInflate &rf = refdec();
+                size_t common = std::min(produced, rf.out.size());
+                if (memcmp(out, rf.out.data(), common)) {
+                        size_t k = 0;
+                        while (out[k] == rf.out[k])
+                                k++;
+                        rr.fail("C06.wrong_output", strf("one-shot decoder (avail_out %zu) returned %d with %zu bytes delivered; byte %zu differs from the reference decoder's output", cap, ret, produced, k));
+                        return false;
+                }
+                if (produced > rf.out.size() && ref_cache_status < 0 && ref_cache_status != REF_ERR_OUTLIMIT && ref_cache_status != REF_ERR_TRAILER) {
+                        rr.fail("C06.wrong_output", strf("one-shot decoder (avail_out %zu) returned %d with %zu bytes delivered, but no conforming decoder gets past byte %zu (reference: %s)", cap, ret, produced, rf.out.size(), ref_status_name(ref_cache_status)));
+                        return false;
+                }
+                return true;
+        }
         // the decoder's announced window: 0 = default, 1..15 = log2 of the largest distance it has to accept
         uint32_t ihb() const
         {
@@ -1033,7 +1073,9 @@ static Json gen_inflate(Rng &r0, const std::string &focus, int tier)
         int kind = (int) r.below(3);
         bool damaged = focus == "C06" ? r.chance(4, 5) : focus == "C11" ? r.chance(3, 4) : (focus == "C07" || focus == "C19") ? false : r.chance(1, 2);
         uint64_t maxlen = r.chance(1, focus == "C06" ? 6 : 12) ? 150000 : r.chance(1, 3) ? 40000 : 4000;
-        src.set("kind", kind).set("data", gen_data_spec(r, maxlen, 0)).set("level", (int) r.below(4));
+        Json sdata = gen_data_spec(r, maxlen, 0);
+        maybe_adler_worst_case(r, focus, sdata);
+        src.set("kind", kind).set("data", sdata).set("level", (int) r.below(4));
         static const int hbs[] = { 0, 0, 0, 9, 12, 15 };
         src.set("hb", r.pick(hbs));
         Json ch = Json::arr();
